@@ -37,7 +37,7 @@ const (
 	fundOutputs    = 20
 	farFuture      = int64(4000000000)
 	seqNonFinal    = uint32(0xfffffffe)
-	worldCount     = 4
+	worldCount     = 5
 	regtestGenesisTime = int64(1296688602)
 	maxUint32Const = math.MaxUint32
 )
@@ -68,6 +68,10 @@ func (c *fakeClock) set(t int64) {
 func blocksOf(world int) int {
 	if world == 3 {
 		return 14
+	}
+	if world == 4 {
+		// next heights 127..130: the BIP34 height needs a second byte from 128 on (sign bit)
+		return 126
 	}
 	return worldBlocks
 }
@@ -369,7 +373,7 @@ func buildWorld(id int) (*world, error) {
 	cbs := map[int32]cbInfo{}
 	for h := int32(1); h <= int32(blocksOf(id)); h++ {
 		var txs []*wire.MsgTx
-		if src, ok := cbs[h-worldMaturity-1]; ok && h >= 5 {
+		if src, ok := cbs[h-worldMaturity-1]; ok && h >= 5 && (id != 4 || h >= 105) {
 			ft := fundingTx(src.op, src.val, int(h))
 			txs = append(txs, ft)
 			fh := ft.TxHash()
